@@ -55,6 +55,14 @@ func PropagateChangesFromUpstreamRepository(downstreamRepo, upstreamRepo *gitint
 		if err != nil {
 			return err
 		}
+		if detail.GetUpstreamPath() != "" {
+			// Only the upstream path is propagated: that subtree is what
+			// the downstream path is expected to hold already
+			upstreamTreeID, err = upstreamRepo.GetPathIDInTree(upstreamTreeID, detail.GetUpstreamPath())
+			if err != nil {
+				return err
+			}
+		}
 
 		if !currentPathTreeID.IsZero() && currentPathTreeID.Equal(upstreamTreeID.Bytes()) {
 			// Nothing to do
